@@ -47,6 +47,11 @@ mod round_robin {
     }
 
     mod cycle {
+        #[cfg(tarpc_verif)]
+        use crate::verif_hooks::AtomicUsize;
+        #[cfg(tarpc_verif)]
+        use std::sync::{atomic::Ordering, Arc};
+        #[cfg(not(tarpc_verif))]
         use std::sync::{
             atomic::{AtomicUsize, Ordering},
             Arc,
